@@ -17,6 +17,9 @@ SESSIONS = {
     "lp2-128x64-n3-hl1": ({"w": 128, "h": 64, "n": 3, "hierarchical_levels": 1, "logical_processors": 2, "recon_enabled": 1}, 0, 1),
     "lp4-192x128-n2-tiles": ({"w": 192, "h": 128, "n": 2, "logical_processors": 4, "tile_rows": 1, "recon_enabled": 1}, 0, 1),
     "lp1-64x64-n1-hl0-d2": ({"w": 64, "h": 64, "n": 1, "hierarchical_levels": 0, "recon_enabled": 1}, -1, 2),
+    # preset 6: loop restoration, TPL delta-q and per-block lambda tuning are active, several EncDec segment rows and workers
+    # (whichever worker finishes a picture hands its state to the next stage); thorough only: ~2100 stall points of 5-picture sessions
+    "lp4-192x128-n5-hl2-preset6": ({"w": 192, "h": 128, "n": 5, "hierarchical_levels": 2, "logical_processors": 4, "enc_mode": 6, "recon_enabled": 1}, -1, 0),
 }
 
 
